@@ -1,37 +1,10 @@
-"""Regenerate /verif/MANIFEST.json from the table below (run by hand after a
-property's check is built; never at check time)."""
+"""Regenerate /verif/MANIFEST.json from harness/claimed.json (run by hand after a
+property's check is integrated; never at check time)."""
 import json
+import os
 
-CLAIMED = {
-    "C20": {
-        "text": "Coq theorems (C20/Props.v) prove, for every nesting of decorated calls, context managers and raises and "
-                "every verbose value, that the model of the settings code restores the observable state; the model is tied "
-                "to /repo on every run by replaying ~8000 generated call trees/blocks on the real decorator, setters and "
-                "context managers and comparing final state and outcome inside Coq (vm_compute), the level table being "
-                "regenerated from cfdm.constants; every really decorated cfdm function is found by reflection and called.",
-        "note": "Guard of C20_verbose_scoped: not (LOG_LEVEL=DISABLE and outermost verbose=0) - open known finding F20c, refuted "
-                "without the guard. Trusted: Coq kernel+VM, harness/drive/c20.py, harness/props/c20.py, harness/tables.py. "
-                "Thread interleavings of the counter are not modelled.",
-        "technique": "Coq proof (induction over call trees / blocks) + vm_compute correspondence with the implementation",
-        "design": "DESIGN.md section 4, C20",
-    },
-}
-
-CLAIMED["C03"] = {
-    "text": "Coq theorems (C03/Props.v): Python/dask slice semantics select only valid positions and agree with the slice "
-            "written by the user (exact guard for the open dask defect), a parsed index expression has one index per axis, "
-            "orthogonal selection is independent of the order in which axes are applied (all ranks, shapes, selections), the "
-            "pairwise strided-slice decomposition used by assignment stores exactly the sequential last-wins program for every "
-            "in-range list, and field subspacing dices exactly the constructs that span a data axis with that axis's index. "
-            "Tied to /repo on every run: ~8000 generated get/set/bounds/field cases (memory, netCDF4, h5netcdf, ragged sources) "
-            "run on the real code, compared inside Coq with the model (vm_compute) and against numpy as the independent oracle.",
-    "note": "n-d assignment: the model's decomposition is compared with the reference semantics case by case inside Coq "
-            "(check_set), the unbounded theorem is per list axis (C03_pair_chunks). Open findings: negative-step slice starting "
-            "below -n (dask normalize_slice), zero-size shapes from netCDF4-python with empty sequence indices. Values are int64 "
-            "and the masked constant; numpy basic slicing, netCDF4/h5py hyperslab reads and dask's normalize_index are trusted.",
-    "technique": "Coq proof (induction over lists / permutations / array depth) + vm_compute correspondence + numpy oracle",
-    "design": "DESIGN.md section 4, C03",
-}
+HERE = os.path.dirname(os.path.abspath(__file__))
+CLAIMED = json.load(open(os.path.join(HERE, "claimed.json")))
 
 REASON_PENDING = "check not built yet (work in progress; DESIGN.md section 8 staging)"
 
